@@ -202,9 +202,33 @@ func genC11(r *rng, tier string, emit func(string)) {
 		var calls []string
 		keys := [][]byte{r.block16(), r.block16()}
 		for j := 0; j < ncalls; j++ {
-			calls = append(calls, fmt.Sprintf("%s,%d,%s,%s,%s", modes[r.intn(4)], 1, hx(keys[r.intn(2)]), hx(r.block16()), hx(r.bytes(1+r.intn(60)))))
+			// lengths: empty, block-aligned and the neighbours of block boundaries as often as arbitrary ones
+			// (state that one call leaves behind for a later call of another length class)
+			l := 1 + r.intn(60)
+			if r.chance(1, 2) {
+				l = r.pick([]int{0, 0, 1, 15, 16, 16, 17, 31, 32, 32, 33, 48, 64})
+			}
+			iv := r.block16()
+			if r.chance(1, 8) {
+				iv = zero16
+			}
+			calls = append(calls, fmt.Sprintf("%s,%d,%s,%s,%s", modes[r.intn(4)], 1, hx(keys[r.intn(2)]), hx(iv), hx(r.bytes(l))))
 		}
 		emit("sm4mseq " + join(calls))
+	}
+	// every mode: an empty (and a one-block) message under a non-zero IV first, then block-aligned and other
+	// lengths in every mode, one history
+	for _, first := range modes {
+		for _, l0 := range []int{0, 16} {
+			key := r.block16()
+			calls := []string{fmt.Sprintf("%s,1,%s,%s,%s", first, hx(key), hx(r.block16()), hx(r.bytes(l0)))}
+			for _, m := range modes {
+				for _, l := range []int{0, 16, 5, 32} {
+					calls = append(calls, fmt.Sprintf("%s,1,%s,%s,%s", m, hx(key), hx(r.block16()), hx(r.bytes(l))))
+				}
+			}
+			emit("sm4mseq " + join(calls))
+		}
 	}
 	// arbitrary inputs to the decrypting direction (partial blocks, bad padding), bad key lengths
 	for i := 0; i < n/2; i++ {
